@@ -9,7 +9,7 @@ META = {
     "engine": "Builtins",
     "technique": "TLA+ reference per builtin derived from its doc comment (byte/rune sequence definitions, BigInt for 64-bit integers) + outcome policy (documented error => never a panic; documented panic => exactly there; otherwise total); implementation-shaped models of QueryEscape/Abbreviate/ToKebab/lookupJSONSpace checked against the reference by TLC; TLC exports the per-function input spaces; a Go dispatch table calls the real builtins under recover() and logs; the TLA+ Trace spec judges every observation",
     "level": "model_checking",
-    "level_text": "TLC model-checks the transcribed QueryEscape, Abbreviate and ToKebab against their references and the mutual consistency of the reference definitions on every exported case, and the model of the 255-entry white-space table against 'only JSON white space' for every byte string up to length 2 over all 256 byte values; the exported cases (about 60 functions; small alphabets exhaustive to length 3-4, every single byte and, in the thorough tier, every byte pair as prefix/indent and QueryEscape input) plus seeded random byte strings (valid and invalid UTF-8, all byte values) are run through the real functions and every result, error or host panic is judged by the TLA+ reference.",
+    "level_text": "TLC model-checks the transcribed QueryEscape, Abbreviate and ToKebab against their references, and the mutual consistency of the reference definitions (split/join, replace, trim, index, base64, min/max, formatInt/parseInt round trips), on every exported case of those functions; and the transcribed lookupJSONSpace table - with the size found in the source and with the proposed 256 - and trimJSONSpace loop against 'only JSON white space' for every byte string up to length 1 (2 once the source has 256 entries, thorough tier) over all 256 byte values. The exported cases (57 entry points of the dispatch table; small alphabets exhaustive to length 3-4, every single byte and, in the thorough tier, every byte pair as MarshalJSONIndent prefix and QueryEscape input) plus seeded random byte strings (valid and invalid UTF-8, all byte values) are run through the real functions and every result, error or host panic is judged by the TLA+ reference.",
     "level_note": "PARTIAL. Not covered (no TLA+ model of the wrapped library exists and writing one is not sensible): agreement of the regexp wrappers with package regexp beyond literal expressions, of the time wrappers (ParseTime, Time methods, Date beyond in-range UTC fields, UnixTime, Now) with package time, the digest VALUES of Md5/Sha1/Sha256/HmacSHA1/HmacSHA256 (only their hex/base64 form), MarshalYAML/UnmarshalYAML results (only error-vs-panic and the nil/non-pointer errors), Sprintf verbs and Sprint of non-strings, Pow and every floating-point value (ParseFloat only on integer literals, FormatFloat only 'f' with precision 0 on integers), the non-ASCII behaviour of Capitalize/CapitalizeAll/ToLower/ToUpper/ToKebab (Unicode case tables), Sort's natural order, HtmlEscape (C24), FormData beyond reading back one escaped query value, Unsafeconv. Those calls are still run and judged for 'never a host panic where an error or a value is documented'. Trusted: TLC, the Json community module, spec/lib (Text, Utf8, BigInt), the Go driver's dispatch table (concretises arguments, calls, renders; no expected values). int is 64-bit on the platform of the run.",
     "design_ref": "7/C25",
 }
@@ -87,7 +87,7 @@ def run(ctx, replay_ids=None):
         mc_consts={"Deep": not ctx.quick, "Part": "main", "TableSize": 256, "TableLen": 0},
         mc_invs=["ImplMeetsRef", "RefConsistent"],
         sub="c25", trace_module="Trace_Builtins", trace_consts={"KeepPerSig": 3},
-        extra=ctx.pick(8000, 60000),
+        extra=ctx.pick(8000, 40000),
         case_from_obs=lambda o: {"id": o["id"], "fn": o["fn"], "args": o["args"]},
         corrupt=corrupt,
         nontrivial=nontrivial,
@@ -116,7 +116,7 @@ def run(ctx, replay_ids=None):
     ctx.cov["functions"] = functions(ctx)
     ctx.cov["bounds"] = {"deep": not ctx.quick, "alphabets": "see spec/builtins/MC_Builtins.tla",
                          "lengths": "strings <= 3 (quick) / <= 4 (thorough) over 3-17 symbol alphabets; all 256 single bytes; thorough: all 65536 byte pairs for QueryEscape and MarshalJSONIndent prefix",
-                         "random_extra": ctx.pick(8000, 60000)}
+                         "random_extra": ctx.pick(8000, 40000)}
     ctx.cov["not_covered"] = META["level_note"].split("Those calls")[0].replace("PARTIAL. ", "")
     ctx.assumptions.append("int is 64 bits wide on the machine running the check (ParseInt range, Abs special case)")
     return rc
